@@ -184,7 +184,16 @@ class C15(Prop):
             cls = impl.CLS[d]
             schemas = case["schemas"]
             for s in schemas:
-                cls.check_schema(s)
+                try:
+                    cls.check_schema(s)
+                except impl.exceptions.SchemaError:
+                    raise
+                except Exception as e:
+                    # checking a schema only needs the class's own metaschema, which is served locally
+                    res.fail(("check_schema-cannot-reach-its-metaschema", impl.tname(e)),
+                             "check_schema(%s) raised %r; network attempts: %r" % (impl.cj(s)[:200], e, netstub.CALLS[:2]))
+                    netstub.reset()
+                    return res
             assert case["instances"] and case["steps"]
             for sc in schemas:
                 for m in (sc.get("definitions") or {}).values():
